@@ -90,7 +90,12 @@ def mc_cover(prog: Program) -> RuleResult:
         raise AnalysisError("MC-COVER: monitored list/set classes not found")
     for c in classes:
         kind = _builtin_base(prog, c)
-        for mname, (mode, argi) in ADDERS[kind].items():
+        adders = dict(ADDERS[kind])
+        # an in-place operator the class defines itself is a bulk adder like extend / update (left to the builtin, PD-AUG covers it)
+        for op in INPLACE[kind]:
+            if prog.lookup(c.qual, op) is not None:
+                adders[op] = ("each", 0)
+        for mname, (mode, argi) in adders.items():
             key = f"{c.name}.{mname}"
             f = prog.lookup(c.qual, mname)
             if f is None:
@@ -129,6 +134,20 @@ def mc_cover(prog: Program) -> RuleResult:
                             if cc.args and isinstance(cc.args[0], ast.Name) and cc.args[0].id == pname:
                                 ok = True
                 r.check(ok, key + "#item", site(f), "", "hook receives the new element", "the hook is not called with the element being added")
+            if kind == "list":
+                # a list keeps what it is given, also an element it holds already: nothing between the mutator and the hook returns early
+                # because the element is "already there" (that is the inferred-addition path of _update, right for sets only)
+                dedup = None
+                for g in seen:
+                    for t_ in [x for x in walk_local(g.node) if isinstance(x, ast.If)]:
+                        tt = t_.test.operand if isinstance(t_.test, ast.UnaryOp) and isinstance(t_.test.op, ast.Not) else t_.test
+                        if isinstance(tt, ast.Compare) and len(tt.ops) == 1 and isinstance(tt.ops[0], (ast.In, ast.NotIn)) and g.params and src(tt.comparators[0]) == g.params[0] \
+                                and any(isinstance(x, (ast.Return, ast.Continue)) for b in t_.body + t_.orelse for x in ast.walk(b)):
+                            dedup = dedup or (g, t_)
+                r.check(dedup is None, key + "#keeps-duplicates", site(dedup[0], dedup[1]) if dedup else site(f), src(dedup[1].test) if dedup else "",
+                        "no membership test decides whether the element is stored",
+                        f"{dedup[0].short if dedup else ''} skips an element the list holds already ({src(dedup[1].test) if dedup else ''}): x.f += [a] with a in x.f, or x.f += x.f, "
+                        "leaves the list shorter than Python's list semantics dictate")
             sup = None
             for g in seen:
                 for cc in calls_in(g.node):
